@@ -27,6 +27,7 @@ func c13(c *Ctx) {
 	c13R4(c, "R4")
 	sQuorum(c, "R5/S-QUORUM")
 	c13R6(c, "R6")
+	sMainSendsBuffered(c, "R7/S-MAINSEND")
 }
 
 // c13R6: the follower side of "a healthy cluster keeps one leader and one
